@@ -126,7 +126,9 @@ def dequeue (s : St) (t : Nat) (q : Option Nat) : St :=
 
 -- create / die / shutdown / call
 def preCreate (s : St) (t : Nat) : Option String :=
-  if s.tids.contains t then some "thread created twice" else none
+  if s.tids.contains t then some "thread created twice"
+  else if (s.th t).st = .sleep then some "create of a thread that is sleeping"
+  else none
 def effCreate (s : St) (t : Nat) : St := { s with tids := s.tids ++ [t], th := upd s.th t {} }
 
 def preDie (s : St) (t : Nat) : Option String :=
@@ -141,26 +143,32 @@ def effCall (s : St) (t : Nat) (op : Op) : St :=
   setTh s t { s.th t with op := op, callAt := s.now, shutAtCall := (s.th t).shutdown }
 
 -- `prepare_usleep`
+/-- the deadline is never earlier than what the API call asked for (shutdown caps it at 10 ms) -/
+def sleepDlOk (x : Th) (now : Nat) (dl : Option Nat) : Bool :=
+  match x.op with
+  | .sleep us =>
+    (match us, dl with
+     | some us, some d => if x.shutAtCall then decide (now ≤ d) else decide (x.callAt + us ≤ d)
+     | none, none => true
+     | none, some d => x.shutAtCall && decide (now ≤ d)
+     | some _, none => false)
+  | _ => true
+
+/-- primitive-specific guards on the queue being entered -/
+def parkGuard (s : St) (op : Op) (q : Option Nat) : Option String :=
+  match q with
+  | none => none
+  | some q' =>
+    match op with
+    | .lock m _ => if q' = m ∧ (s.mutex m).owner = none then some "mutex: parking although the mutex is free" else none
+    | .semwait sm n _ _ =>
+      if q' = sm ∧ n ≤ (s.sem sm).count then some "semaphore: parking although the count covers the demand" else none
+    | _ => none
+
 def preSleep (s : St) (t : Nat) (q dl : Option Nat) : Option String :=
-  let x := s.th t
-  if x.st ≠ .run then some "sleep: thread not running"
-  else
-    -- the deadline is never earlier than what the API call asked for (shutdown caps it at 10 ms)
-    let okDl : Bool := match x.op, dl with
-      | .sleep (some us), some d => if x.shutAtCall then decide (s.now ≤ d) else decide (x.callAt + us ≤ d)
-      | .sleep none, none => true
-      | .sleep none, some d => x.shutAtCall && decide (s.now ≤ d)
-      | .sleep (some _), none => false
-      | _, _ => true
-    if !okDl then some "sleep: deadline earlier than requested"
-    else
-      -- primitive-specific guards on the queue being entered
-      match x.op, q with
-      | .lock m _, some q' =>
-        if q' = m ∧ (s.mutex m).owner = none then some "mutex: parking although the mutex is free" else none
-      | .semwait sm n _ _, some q' =>
-        if q' = sm ∧ n ≤ (s.sem sm).count then some "semaphore: parking although the count covers the demand" else none
-      | _, _ => none
+  if (s.th t).st ≠ .run then some "sleep: thread not running"
+  else if !sleepDlOk (s.th t) s.now dl then some "sleep: deadline earlier than requested"
+  else parkGuard s (s.th t).op q
 
 def effSleep (s : St) (t : Nat) (q dl : Option Nat) : St :=
   let x := s.th t
